@@ -4841,17 +4841,11 @@ class ParameterizedMetaclass(type):
                         subcls._param__private.params = {}
                 raise
 
+        elif isinstance(value,Parameter):
+            # as for a Parameter declared in the class body: same as add_parameter
+            mcs.param.add_parameter(attribute_name, value)
         else:
             type.__setattr__(mcs,attribute_name,value)
-
-            if isinstance(value,Parameter):
-                # as for a Parameter declared in the class body or added
-                # with add_parameter: it has to be told its name too
-                mcs._initialize_parameter(attribute_name,value)
-                # a Parameter was added or replaced: drop the cached
-                # params() of this class and of its subclasses
-                for subcls in descendents(mcs):
-                    subcls._param__private.params = {}
 
     def __param_inheritance(mcs, param_name, param):
         """
